@@ -549,6 +549,132 @@ def d3_bookkeeping(chk: Check) -> None:
                    "truth table over {} atoms".format(len(atoms)))
 
 
+def d5_options(chk: Check) -> None:
+    """Options travel with the recursion: every call from the search /
+    expansion functions to one of them passes each keyword option the
+    callee reads, bound to the caller's own value of that option (the
+    callee's fallback defaults differ from the tool's defaults)."""
+    prog = chk.prog
+    chk.rule("C07-D5", "every recursive / expansion call forwards each "
+             "keyword option the callee reads, unchanged", floor=8)
+    chk.rule("C07-D6", "the search term of the tool is taken from the "
+             "escaped parse of the expression", floor=1)
+    fns = {name: fn(prog, name) for name in ("search_for_paths",
+                                             "yield_children")}
+    reads: Dict[str, Dict[str, str]] = {}
+    for name, fi in fns.items():
+        kw = fi.node.args.kwarg.arg if fi.node.args.kwarg else None
+        m: Dict[str, str] = {}
+        for n in walk_local(fi.node):
+            if isinstance(n, (ast.Assign, ast.AnnAssign)) and \
+                    isinstance(n.value, ast.Call) and \
+                    isinstance(n.value.func, ast.Attribute) and \
+                    n.value.func.attr == "pop" and kw and \
+                    src(n.value.func.value) == kw and n.value.args and \
+                    isinstance(n.value.args[0], ast.Constant):
+                tgt = n.targets[0] if isinstance(n, ast.Assign) else n.target
+                m[str(n.value.args[0].value)] = src(tgt)
+        reads[name] = m
+    for cname, cfi in fns.items():
+        for c in walk_local(cfi.node):
+            if not (isinstance(c, ast.Call) and isinstance(c.func, ast.Name)
+                    and c.func.id in fns):
+                continue
+            callee = c.func.id
+            passed = {k.arg: src(k.value) for k in c.keywords if k.arg}
+            problems = []
+            for opt in sorted(reads[callee]):
+                mine = reads[cname].get(opt)
+                if opt not in passed:
+                    problems.append("`{}` not passed (callee falls back to "
+                                    "its own default)".format(opt))
+                elif mine is not None and passed[opt] != mine:
+                    problems.append("`{}` bound to `{}` instead of the "
+                                    "caller's `{}`".format(opt, passed[opt],
+                                                           mine))
+            text = "{} -> {} @{}".format(cname, callee, "call")
+            if problems:
+                chk.fail("C07-D5", cfi, c, text, "; ".join(problems))
+            else:
+                chk.ok("C07-D5", cfi, c, text,
+                       "{} option(s) forwarded".format(len(reads[callee])))
+    # D6: the tool's search term
+    gst = fn(prog, "get_search_term")
+    chk.analysed(gst)
+    views = [n for n in walk_local(gst.node) if isinstance(n, ast.Attribute)
+             and n.attr in ("escaped", "unescaped")]
+    if not views:
+        raise AnalysisError("get_search_term no longer parses a YAMLPath")
+    for v in views:
+        if v.attr == "escaped":
+            chk.ok("C07-D6", gst, v, src(v)[:60], "escaped parse")
+        else:
+            chk.fail("C07-D6", gst, v, src(v)[:60],
+                     "the search term keeps the escape marks of the "
+                     "expression: `=a\\ b` no longer matches the value "
+                     "`a b`")
+
+
+def d3e_shared_record(chk: Check) -> None:
+    """seen_anchors is one list shared by the whole search: callees record
+    into it (search_anchor appends).  Re-binding the parameter to a new
+    list is right only when none was given (`is None`); under any other
+    test (an empty list is falsy) the subtree records into a throw-away
+    list and its anchors are forgotten on return."""
+    prog = chk.prog
+    chk.rule("C07-D3e", "the shared seen-anchors list is re-bound only "
+             "when it is None", floor=1)
+    sa_fn = prog.func("Searches.search_anchor")
+    # role: the parameter of search_anchor that is appended to
+    acc_pos = None
+    for i, pname in enumerate(sa_fn.params()):
+        if any(isinstance(c, ast.Call) and
+               isinstance(c.func, ast.Attribute) and
+               c.func.attr == "append" and src(c.func.value) == pname
+               for c in walk_local(sa_fn.node)):
+            acc_pos = i
+    if acc_pos is None:
+        chk.fail("C07-D3e", sa_fn, sa_fn.node, "search_anchor",
+                 "search_anchor no longer records the anchors it meets: "
+                 "nothing can be recognised as an alias later")
+        return
+    n_sites = 0
+    for name in ("search_for_paths", "yield_children"):
+        fi = fn(prog, name)
+        accs = {src(c.args[acc_pos]) for c in walk_local(fi.node)
+                if isinstance(c, ast.Call) and
+                src(c.func).endswith("search_anchor") and
+                len(c.args) > acc_pos}
+        accs &= set(fi.params())
+        for acc in sorted(accs):
+            assigns = [n for n in walk_local(fi.node)
+                       if isinstance(n, (ast.Assign, ast.AnnAssign)) and
+                       src(n.targets[0] if isinstance(n, ast.Assign)
+                           else n.target) == acc]
+            n_sites += 1
+            bad = []
+            for a in assigns:
+                ok = any(f.kind == "cond" and f.pol and
+                         isinstance(f.expr, ast.Compare) and
+                         src(f.expr) == "{} is None".format(acc)
+                         for f in facts_at(a))
+                if not ok:
+                    bad.append(a)
+            text = "{}: parameter `{}`".format(name, acc)
+            if bad:
+                chk.fail("C07-D3e", fi, bad[0], text,
+                         "`{}` re-binds the shared list on a path where it "
+                         "is not known to be None: anchors met below are "
+                         "recorded in a private list and forgotten".format(
+                             src(bad[0])[:50]))
+            else:
+                chk.ok("C07-D3e", fi, fi.node, text,
+                       "{} re-binding(s), all under `is None`".format(
+                           len(assigns)))
+    if n_sites == 0:
+        raise AnalysisError("no shared seen-anchors parameter found")
+
+
 # ---------------------------------------------------------------- D4 ------
 def d4_once(chk: Check) -> None:
     prog = chk.prog
@@ -560,10 +686,23 @@ def d4_once(chk: Check) -> None:
     rvars = {src(l.target) for l in walk_local(fi.node)
              if isinstance(l, ast.For) and isinstance(l.iter, ast.Call)
              and src(l.iter.func).endswith("search_for_paths")}
+    from sa.coords import reaching_def
+
+    def mentions_result(call: ast.Call) -> bool:
+        for x in ast.walk(call):
+            if isinstance(x, ast.Name) and x.id in rvars:
+                return True
+        for a in call.args:
+            if isinstance(a, ast.Name):
+                d = reaching_def(a.id, call)
+                if d is not None and any(
+                        isinstance(x, ast.Name) and x.id in rvars
+                        for x in ast.walk(d)):
+                    return True
+        return False
     apps = [n for n in walk_local(fi.node) if isinstance(n, ast.Call)
             and isinstance(n.func, ast.Attribute) and n.func.attr == "append"
-            and any(isinstance(x, ast.Name) and x.id in rvars
-                    for x in ast.walk(n))]
+            and mentions_result(n)]
     if not apps:
         raise AnalysisError("result recording not found")
     for a in apps:
@@ -585,14 +724,27 @@ def d4_once(chk: Check) -> None:
                          and src(l.iter) == lst]
                 if cond and loops:
                     ok = True
+        # or: a direct membership test of the path text among the
+        # recorded path texts
+        for f in facts_at(a):
+            e = f.expr
+            if f.kind == "cond" and f.pol and isinstance(e, ast.Compare) \
+                    and len(e.ops) == 1 and isinstance(e.ops[0], ast.NotIn) \
+                    and any(src(e.left) == "str({})".format(r)
+                            for r in rvars) and \
+                    isinstance(e.comparators[0], (ast.ListComp, ast.SetComp,
+                                                  ast.GeneratorExp)) and \
+                    src(e.comparators[0].generators[0].iter) == lst:
+                ok = True
         if ok:
             chk.ok("C07-D4", fi, a, src(a)[:60],
                    "guarded by the duplicate flag cleared when an equal "
                    "path is already recorded")
         else:
             chk.fail("C07-D4", fi, a, src(a)[:60],
-                     "results are recorded without the duplicate check: a "
-                     "path could be printed more than once")
+                     "results are recorded without a duplicate check on "
+                     "the path alone: a node matched by two expressions is "
+                     "printed twice (and survives --except once)")
 
 
 def run(chk: Check) -> None:
@@ -601,4 +753,6 @@ def run(chk: Check) -> None:
     d3_search_anchor(chk)
     d3_consumer(chk)
     d3_bookkeeping(chk)
+    d3e_shared_record(chk)
+    d5_options(chk)
     d4_once(chk)
